@@ -662,9 +662,11 @@ func (v *verifLB) drain() {
 		pk, perr := v.b.Peek(all)
 		verifAssert(perr == nil && len(pk) == all, "C01/drain-peek")
 		verifAssert(v.matches(pk, v.consumed), "C01/drain-peek-bytes")
+		v.addLease(pk, "drain.peek", -1)
 		p, err := v.b.Next(all)
 		verifAssert(err == nil && len(p) == all, "C01/drain-next")
 		verifAssert(v.matches(p, v.consumed), "C01/drain-bytes")
+		v.addLease(p, "drain.next", -1)
 		v.consumed += all
 	}
 	_, err := v.b.Next(1)
